@@ -206,6 +206,11 @@ func main() {
 		writeIfChanged(filepath.Join(*out, "Facts.lean"), w.emitFacts())
 		writeIfChanged(filepath.Join(*out, "FnDriver.lean"), w.emitDriver())
 		writeIfChanged(filepath.Join(*out, "Schema.lean"), w.emitSchema())
+		ck, ckFailed := w.emitChecker()
+		writeIfChanged(filepath.Join(*out, "Checker.lean"), ck)
+		if ckFailed != "" {
+			w.notes = append(w.notes, "untranslated checker.go: "+ckFailed)
+		}
 	}
 	if *meta != "" {
 		writeIfChanged(*meta, w.emitMeta())
